@@ -8,6 +8,7 @@ import (
 	"time"
 
 	"github.com/buildbuildio/pebbles"
+	"github.com/buildbuildio/pebbles/gqlerrors"
 	"github.com/buildbuildio/pebbles/requests"
 	"github.com/vektah/gqlparser/v2"
 	"github.com/vektah/gqlparser/v2/ast"
@@ -27,6 +28,41 @@ type SubEvent struct {
 	Sub   int         `json:"sub"`             // index into Subs
 	Value interface{} `json:"value,omitempty"` // stored value of the subscription root field for this event
 	Error bool        `json:"error,omitempty"` // the upstream sends errors instead of data
+	// Partial: the upstream sends the data of Value together with errors (a partial failure)
+	Partial bool `json:"partial,omitempty"`
+	// KeepAlive: the upstream (real websocket upstream only) sends a keep-alive message before this event
+	KeepAlive bool `json:"keep_alive,omitempty"`
+}
+
+// extraKey reports a key of got that the reference answer does not have at the same place (a helper field that was not removed).
+func extraKey(exp, got interface{}, path string) string {
+	switch g := got.(type) {
+	case map[string]interface{}:
+		e, ok := exp.(map[string]interface{})
+		if !ok {
+			return ""
+		}
+		for k, gv := range g {
+			ev, has := e[k]
+			if !has {
+				return path + "." + k
+			}
+			if x := extraKey(ev, gv, path+"."+k); x != "" {
+				return x
+			}
+		}
+	case []interface{}:
+		e, ok := exp.([]interface{})
+		if !ok || len(e) != len(g) {
+			return ""
+		}
+		for i := range g {
+			if x := extraKey(e[i], g[i], fmt.Sprintf("%s[%d]", path, i)); x != "" {
+				return x
+			}
+		}
+	}
+	return ""
 }
 
 type SubSpec struct {
@@ -201,6 +237,10 @@ func checkC17(c *SubCase) (*ev.Failure, string) {
 		rt := subs[e.Sub]
 		sp := rt.spec
 		var expected map[string]interface{}
+		if e.KeepAlive && c.RealWS {
+			// a keep-alive of the service is not an event and ends nothing
+			rt.ws.Send(map[string]interface{}{"type": "ka"})
+		}
 		if e.Error {
 			if !c.RealWS {
 				continue // upstream error messages are exercised through the real websocket upstream only
@@ -218,13 +258,23 @@ func checkC17(c *SubCase) (*ev.Failure, string) {
 			if len(rr.Errors) > 0 {
 				return nil, "skip:reference-errors"
 			}
+			full := refexec.Normalize(rr.Data)
 			expected, _ = refexec.Prune(refexec.Normalize(rr.Data)).(map[string]interface{})
+			if e.Partial {
+				expected, _ = full.(map[string]interface{})
+			}
+			payload := map[string]interface{}{"data": ans}
+			resp := &requests.Response{Data: ans}
+			if e.Partial {
+				payload["errors"] = []interface{}{map[string]interface{}{"message": fmt.Sprintf("partial failure %d", k)}}
+				resp.Errors = gqlerrors.ErrorList{gqlerrors.NewError("PARTIAL", fmt.Errorf("partial failure %d", k))}
+			}
 			if c.RealWS {
-				if err := rt.ws.Send(map[string]interface{}{"type": "data", "id": rt.ws.ID, "payload": map[string]interface{}{"data": ans}}); err != nil {
+				if err := rt.ws.Send(map[string]interface{}{"type": "data", "id": rt.ws.ID, "payload": payload}); err != nil {
 					return ev.Failf("upstream-closed", "the gateway closed the upstream connection of an active subscription: %v", err), ""
 				}
 			} else {
-				if ok, err := rt.up.Emit(&requests.Response{Data: ans}, 3*time.Second); !ok {
+				if ok, err := rt.up.Emit(resp, 3*time.Second); !ok {
 					return ev.Failf("lost", "event %d of subscription %s was not taken by the gateway: %v", k, sp.ID, err), ""
 				}
 			}
@@ -250,6 +300,17 @@ func checkC17(c *SubCase) (*ev.Failure, string) {
 		if e.Error {
 			if l, _ := pl["errors"].([]interface{}); len(l) == 0 {
 				return ev.Failf("error-not-forwarded", "upstream errors of event %d were not forwarded: %s", k, trunc(string(f.Payload), 300)), ""
+			}
+			delivered++
+			continue
+		}
+		if e.Partial {
+			// errors forwarded; whatever data comes with them carries no helper field
+			if l, _ := pl["errors"].([]interface{}); len(l) == 0 {
+				return ev.Failf("error-not-forwarded", "upstream errors of partial event %d were not forwarded: %s", k, trunc(string(f.Payload), 300)), ""
+			}
+			if x := extraKey(map[string]interface{}(expected), refexec.Normalize(pl["data"]), "data"); x != "" {
+				return ev.Failf("payload-mismatch:extra-key", "event %d of subscription %s (%s), delivered with upstream errors, carries %s which the client did not select: %s", k, sp.ID, trunc(sp.Op.Query, 150), x, trunc(string(f.Payload), 400)), ""
 			}
 			delivered++
 			continue
@@ -336,6 +397,14 @@ func genSubCase(t *rapid.T, rec *ev.Recorder) (*SubCase, []string) {
 		if c.RealWS && rapid.IntRange(0, 9).Draw(t, "everr") == 0 {
 			e = SubEvent{Sub: si, Error: true}
 			labels = append(labels, "upstreamErrors")
+		}
+		if c.RealWS && rapid.IntRange(0, 3).Draw(t, "evka") == 0 {
+			e.KeepAlive = true
+			labels = append(labels, "upstreamKeepAlive")
+		}
+		if !e.Error && rapid.IntRange(0, 7).Draw(t, "evpartial") == 0 {
+			e.Partial = true
+			labels = append(labels, "upstreamErrorsWithData")
 		}
 		c.Events = append(c.Events, e)
 	}
